@@ -15,8 +15,10 @@ Fixpoint dedup (l : list (bool * Z * Z)) : list (bool * Z * Z) :=
 Definition model_abs : list (bool * Z * Z) :=
   let sc := script 0 c08_work in
   dedup (map (fun k => abs_of (run empty_db (firstn k sc))) (seq 1 (List.length sc))).
+(* ... and the work list satisfies the premise of C08_crash_between_commits *)
 Definition mism_abs := Eval vm_compute in
-  (if eqb_list abs_eqb model_abs (dedup cases_abs) then [] else [0]).
+  ((if eqb_list abs_eqb model_abs (dedup cases_abs) then [] else [0]) ++
+   (if wf_work 1 c08_work then [] else [1])).
 Print mism_abs.
 
 (* page-level model instantiated on a synthetic commit with the observed number
